@@ -100,6 +100,31 @@ def correspond(ctx, scale):
             dist['K_gt_batch'] += K > b * n * (1 if sep else heads)
             dist['heads'] += heads > 1
             dist['eval_frozen'] += mode != 'train'
+    # separate codebooks per head with a PRESCRIBED pattern of which heads have dead codes this step (usage counts written directly: a reachable state):
+    # a head without dead codes next to later heads with some, and the other way round - every head's revival concerns that head alone
+    for pi, pattern in enumerate(([False, True], [True, False], [False, True, True], [True, False, True], [False, False, True])):
+        for cos_p in (False, True):
+            try:
+                H = len(pattern)
+                kw_p = dict(dim=2 * H, codebook_dim=2, heads=H, separate_codebook_per_head=True, codebook_size=5, decay=0.5, threshold_ema_dead_code=1, use_cosine_sim=cos_p)
+                vq_p = VectorQuantize(**kw_p)
+                vqrec.set_codebook_grid(vq_p, rng)
+                with torch.no_grad():
+                    for h_, has_dead in enumerate(pattern):
+                        vq_p._codebook.cluster_size[h_] = 8.0                      # all live after the step (8 * 0.5 = 4 >= 1)
+                        if has_dead:
+                            vq_p._codebook.cluster_size[h_, (h_ + pi) % 5] = 0.25      # dead unless the batch hits it hard
+                            vq_p._codebook.cluster_size[h_, (h_ + pi + 2) % 5] = 0.5
+                    vq_p._codebook.embed_avg.copy_(vq_p._codebook.embed * vq_p._codebook.cluster_size[..., None])
+                vq_p.train()
+                ret, recs = vqrec.record_call(vq_p, vqrec.grid(rng, (1, 2, 2 * H)))
+                evaluations += 1
+                dist['prescribed_dead_head_patterns'] = dist.get('prescribed_dead_head_patterns', 0) + 1
+                for h_ in range(recs[0].H):
+                    cases.append(c03.update_term(recs[0], h_, vq_p._codebook, cos_p, TOL_E, TOL_S))
+                    meta.append(dict(kind='vq-dead-head-pattern', kw=kw_p, step=0, head=h_, mode='train', reset=1.0, pattern=pattern))
+            except Exception as ex:
+                failures.append({'key': f'vq-dead-head-pattern:exception:{type(ex).__name__}', 'what': repr(ex), 'case': dict(pattern=pattern)})
     # hyper-parameters are constructor arguments, not state (c03.cross_config_cases): a module that LOADS the state of a differently configured one
     cc, cm, n_cc = c03.cross_config_cases(ctx, rng, scale, dist, failures, TOL_E, TOL_S)
     cases += cc
